@@ -53,13 +53,13 @@ func init() {
 	register(&Property{
 		ID:    "C03",
 		Level: "exploration",
-		Rule: "PRNG programs from four families — command chains in normal / try / trypipe mode, nested foreach/while/if/function control flow, variable-scoping programs, and data-flow pipelines over the deterministic builtins (tout, format, cast, foreach, if, switch, msort, mtac, regexp, count, prepend/append, index, functions reading <stdin>) — each executed once without and R times with hook-driven schedule perturbation (random yields / microsecond sleeps at the check-then-act windows of the streams and of process start / termination / deregistration), every run in a fresh fork; " +
+		Rule: "PRNG programs from five families — command chains in normal / try / trypipe mode, statements whose first pipeline stage writes stderr while the later stages never read their stdin (so only the interpreter orders the stderr lines of consecutive statements), nested foreach/while/if/function control flow, variable-scoping programs, and data-flow pipelines over the deterministic builtins (tout, format, cast, foreach, if, switch, msort, mtac, regexp, count, prepend/append, index, functions reading <stdin>) — each executed once without and R times with hook-driven schedule perturbation (random yields / microsecond sleeps at the check-then-act windows of the streams and of process start / termination / deregistration), every run in a fresh fork; " +
 			"oracle: all runs finish and give byte-identical stdout, stderr and exit number (and equal the reference model where the family has one); non-trivial = the program has a pipeline of >= 2 stages or a function call and its runs showed >= 2 distinct interleaving signatures; distinct by program text",
 		Assumptions: []string{"programs obey the stream discipline (at most one stderr writer per pipeline, only the last stage writes the block's stdout)", "failing commands are generated only as non-piped leaves or first stages (a failing list builtin may ForceClose its stdin, which legitimately races with the upstream writer)", "Go goroutines are preemptible everywhere, so every injected delay is a legal schedule"},
 		Technique:   "runtime monitoring: metamorphic same-program-many-schedules comparison with hook-injected yields",
 		Run: func(x *Ctx) {
 			pool := x.NewPool(false)
-			n := x.Pick(300, 5000)
+			n := x.Pick(500, 8000)
 			R := x.Pick(5, 24)
 			var cases []*proto.Case
 			for i := 0; i < n; i++ {
@@ -67,7 +67,37 @@ func init() {
 				id := fmt.Sprintf("%d_%d", x.Seed, i)
 				var e c03Expect
 				var block string
-				switch i % 4 {
+				switch i % 5 {
+				case 4:
+					// pipelines whose first stage writes stderr and whose later stages never read
+					// their stdin, followed by more stderr writers: the order of the stderr lines
+					// depends on each statement waiting for all the stages of the one before it
+					var units []Unit
+					tag := 0
+					for k := 2 + r.Intn(4); k > 0; k-- {
+						u := Unit{}
+						if len(units) > 0 {
+							u.Join = []string{";", "\n"}[r.Intn(2)]
+						}
+						tag++
+						u.Stages = append(u.Stages, Stage{Kind: "err", Tag: fmt.Sprintf("e%d", tag)})
+						for j := r.Intn(3); j > 0; j-- {
+							tag++
+							if r.Intn(2) == 0 {
+								u.Stages = append(u.Stages, Stage{Kind: "out", Tag: fmt.Sprintf("o%d", tag)})
+							} else {
+								u.Stages = append(u.Stages, Stage{Kind: "fn", Tag: fmt.Sprintf("f%d", tag), Exit: 0})
+							}
+							u.Pipes = append(u.Pipes, []string{"|", "->"}[r.Intn(2)])
+						}
+						units = append(units, u)
+					}
+					wrapper := []string{"plain", "function"}[r.Intn(2)]
+					c := mkChainCase("c03e_"+id, "normal", wrapper, units)
+					var ce chainExpect
+					json.Unmarshal(c.Expect, &ce)
+					block = c.Block
+					e = c03Expect{Family: "stderr-order", Src: ce.Body, Piped: true, HasModel: !ce.Want.Ambiguous, Stdout: ce.Want.Stdout, Exit: ce.Want.Exit, ExitKnown: true}
 				case 0:
 					units := genChain(r, 8, true)
 					mode := []string{"normal", "try", "trypipe"}[r.Intn(3)]
